@@ -70,6 +70,7 @@ struct Op {
     int a = 0, b = 0, c = 0, d = 0;
     int fk = 0;                // fault: fail the fk-th allocation made inside this op (0 = none)
     int fm = 0;                // 1 = once, 2 = sticky (that one and all later ones inside this op)
+    int h = 0;                 // 1 = the client holds the container's lock()/unlock() around this operation
 };
 
 struct Cfg {
@@ -179,6 +180,8 @@ struct World {
     virtual void sut_abandon() = 0;                        // forget the SUT without touching it
     virtual void sut_probe(Ctx &) {}                       // C14: one cheap locked operation from another thread
     virtual void sut_force_unlock() {}                     // C14: container->unlock()
+    virtual bool sut_user_lock() { return false; }         // container->lock() by the client (false: this world has no lock API)
+    virtual void sut_prepare(Op &) {}                      // sequential modes: resolve placement-dependent arguments before the model sees the op
     virtual void *sut_mutex() { return nullptr; }
     virtual std::string render(const Op &op) const;        // human readable op
 };
